@@ -2,6 +2,58 @@
 
 package fclient
 
-import "net"
+import (
+	"context"
+	"net"
+	"net/http"
+	"time"
+)
+
+// In-package access for the verification harness (added by build overlay only).
 
 func VerifIsAllowed(ip net.IP, allow, deny []string) bool { return isAllowed(ip, allow, deny) }
+
+// VerifControl runs the dialer control function for one (network, address).
+func VerifControl(allow, deny []string, network, address string) error {
+	return allowDenyNetworksControl(allow, deny)(context.Background(), network, address, nil)
+}
+
+// VerifDialerHasControl reports whether a client configured with these lists installs a control function at all.
+func VerifDialerHasControl(allow, deny []string) bool {
+	return newDestinationTripperDialer(allow, deny).ControlContext != nil
+}
+
+// VerifTripper exposes the federation transport cache (destinationTripper).
+type VerifTripper struct{ f *destinationTripper }
+
+func VerifNewTripper(wellKnownSRV bool) *VerifTripper {
+	return &VerifTripper{newDestinationTripper(false, nil, false, wellKnownSRV, nil, nil)}
+}
+
+func (t *VerifTripper) RoundTrip(r *http.Request) (*http.Response, error) { return t.f.RoundTrip(r) }
+
+// SetTransport pre-populates the transport used for one TLS server name.
+func (t *VerifTripper) SetTransport(sni string, tr *http.Transport) {
+	t.f.transportsMutex.Lock()
+	defer t.f.transportsMutex.Unlock()
+	e := &destinationTripperTransport{Transport: tr}
+	e.lastUsed.Store(time.Now())
+	t.f.transports[sni] = e
+}
+
+// GetTransport is getTransport with the tripper's own dialer.
+func (t *VerifTripper) GetTransport(sni string) http.RoundTripper {
+	return t.f.getTransport(sni, t.f.dialer)
+}
+
+func (t *VerifTripper) Reap() { t.f.reaper() }
+
+func (t *VerifTripper) TransportNames() []string {
+	t.f.transportsMutex.Lock()
+	defer t.f.transportsMutex.Unlock()
+	var out []string
+	for k := range t.f.transports {
+		out = append(out, k)
+	}
+	return out
+}
